@@ -136,6 +136,11 @@ func propTable() map[string]*PropSpec {
 				q = append(q, c)
 			}
 		}
+		for _, kind := range []int{1, 2} {
+			c := rc(fmt.Sprintf("C12_Mutate/kind=%d/windows=2", kind), ".", "C12_Mutate", map[string]int{"kind": kind, "windows": 2})
+			c.MaxPaths = 2000000
+			th = append(th, c)
+		}
 		for kind := 0; kind <= 4; kind++ {
 			c := rc(fmt.Sprintf("C12_MutateFuture/kind=%d", kind), ".", "C12_MutateFuture", map[string]int{"kind": kind})
 			c.RequireReach = []string{"C12.future.synced"}
